@@ -178,9 +178,11 @@ theorem count_exceptions_default :
     defaultClasses = [.exception] ∧
     (∀ i c, escapes defaultClasses (.raise ⟨i, c⟩) = true ↔
       c ≠ .baseException ∧ c ≠ .keyboardInterrupt ∧ c ≠ .systemExit ∧ c ≠ .generatorExit) := by
-  refine ⟨by decide, ?_⟩
+  have hd : defaultClasses = [.exception] := by decide
+  refine ⟨hd, ?_⟩
   intro i c
-  cases c <;> decide
+  rw [hd]
+  cases c <;> simp [escapes, ExcClass.mro]
 
 example : (exec (.mk [.countExc 0 [.exception]] (.nest
       (.cons (.mk [.countExc 0 [.exception]] (.out (.raise ⟨1, .keyError⟩)))
